@@ -267,7 +267,7 @@ def run(ctx):
     ctx.require_actions("ReactorLifeMC", ACTIONS)
     hs = exhaustive(ctx.pick(3, 4), ctx.pick(PROLOGUES[:2], PROLOGUES))
     nex = len(hs)
-    for _ in range(ctx.pick(700, 25000)):
+    for _ in range(ctx.pick(700, 15000)):
         hs.append(random_ops(ctx.rng))
     traces = [run_history(h) for h in hs]
     ctx.log("%d real executions (%d exhaustive-short, %d random), %d events" % (len(traces), nex, len(traces) - nex, sum(len(t["ev"]) for t in traces)))
